@@ -134,6 +134,28 @@ func runC12(c *Ctx) {
 			if why := snapshotConsistent(u, after); why != "" {
 				c.SpecFail("atomicity", r.hist, why, "a consistent state", "C12/inconsistent-state", "a published state is not internally consistent")
 			}
+			// handlers and the connection table belong together: a handler no connection entry tracks is a
+			// local one — as many as RegisterService calls put there
+			{
+				owners := after.Owners()
+				for _, m := range u.methods {
+					untracked, local := 0, 0
+					for _, o := range owners[u.full(m)] {
+						if o == "untracked" {
+							untracked++
+						}
+					}
+					for _, o := range r.live[m.id] {
+						if o == "L" {
+							local++
+						}
+					}
+					if untracked != local {
+						c.SpecFail("atomicity", r.hist, fmt.Sprintf("method %d: %d handlers that no connection entry tracks, %d local registrations (owners %v)", m.id, untracked, local, owners[u.full(m)]), "every connection handler tracked by its connection", "C12/inconsistent-state/orphan-handlers", "a published state holds handlers of a connection that its connection table does not track (they can never be removed)")
+						break
+					}
+				}
+			}
 			for _, k := range keep {
 				if fp := k.snap.Fingerprint(); fp != k.fp {
 					c.SpecFail("immutability", fmt.Sprintf("%s ; state published by call %d, re-read after call %d", r.hist, k.at, len(r.ops)), firstDiff(k.fp, fp), "the state as it was published", "C12/published-state-mutated", "a later call modified a state that had already been published (a reader holding it sees it change)")
